@@ -24,11 +24,12 @@ from ..oracles import scm_eval as S
 PROP = "C03"
 RULE = ("ADMGs with 3-5 nodes (thorough: up to 6; half random, half mutations of textbook seeds) x pairwise disjoint "
         "X (possibly empty), Y, Z (1-2 each) through idc(Identification) and identify_outcomes(conditions=…); corpus = "
-        "figure 6a of Shpitser-Pearl 2008 and the F2 witness; a malformed stream (overlaps, nodes outside the graph). "
+        "figure 6a of Shpitser-Pearl 2008 and the F2 witness; a malformed stream (overlaps, nodes outside the graph); "
+        "structured graphs with 2-3 conditions one of which is an opened collider (or a descendant of one) between the "
+        "tested condition and the outcome and no ancestor of either (tag nonancestor_conditions), 4-6 nodes. "
         "Every returned estimand is evaluated exactly on 2-3 random positive SCMs at every assignment. A case is "
         "non-trivial when rule 2 was tested with both outcomes (some exchange made or refused) or ID used lines 4-7.")
 ASSUMPTIONS = [
-    "idc_sound_of_rule2 is proved relative to the explicitly named hypothesis `Rule2Sound sep M G` (rule 2 of the do-calculus for the separation test in the model M: if rule_2_of_do_calculus_applies then conditioning on the condition equals intervening on it); rule 2 itself is literature (Pearl 1995), not mechanised here; the unconditional idc_sound is OPEN; the exact SCM evaluation oracle covers it per input",
     "model class: positive discrete semi-Markovian SCMs with independent root latents (Y0/Spec/Scm.lean)",
     "the order in which the loop over `identification.conditions` (a Python set) meets the conditions is a parameter of the model; theorems hold for every order, the correspondence feeds the observed one",
     "`graph.topological_sort()` is a parameter `topo` of the model (trusted: networkx returns linear extensions)",
@@ -51,6 +52,13 @@ def _corpus():
 def cases(rng: random.Random, tier: str):
     nmax = 5 if tier == "quick" else 6
     out = [dict(c) for c in _corpus()]
+    # structured: several conditions, one of them an opened collider (or a descendant of one) between the tested
+    # condition and the outcome that is not an ancestor of either (R.collider_family): the rule-2 test must refuse
+    ns = 500 if tier == "quick" else 3000
+    for k in range(ns):
+        g, X, Y, Z, kind = R.collider_family(rng, (4, 5, 5, 6)[k % 4])
+        out.append({"g": g, "X": X, "Y": Y, "Z": Z, "via": "idc" if k % 5 else "identify_outcomes",
+                    "label": "structured:" + kind, "seed": rng.randrange(1 << 30)})
     n = 2600 if tier == "quick" else 18000
     for k in range(n):
         g = R.gen_graph(rng, 3, nmax if k % 3 else 4)
@@ -98,8 +106,38 @@ def semantic_check(case, expr):
     return None
 
 
+_memo = {}
+
+
 def _run(case):
-    return R.run_identify(case["g"], case["X"], case["Y"], via=case.get("via", "idc"), conditions=case["Z"])
+    """the real run; memoised per process (`request` and `canon_model` run serially in the main process and the run is
+    deterministic within a process)"""
+    k = json.dumps([case["g"], case["X"], case["Y"], case["Z"], case.get("via", "idc")], sort_keys=True)
+    if k not in _memo:
+        if len(_memo) > 50000:
+            _memo.clear()
+        _memo[k] = R.run_identify(case["g"], case["X"], case["Y"], via=case.get("via", "idc"), conditions=case["Z"])
+    return _memo[k]
+
+
+def _nonancestor_conditions(case):
+    """conditions that are not ancestors (in G) of the outcomes or of another condition: only a collider or a
+    descendant of one can make such a condition matter for the rule-2 test"""
+    g = case["g"]
+    pa = {}
+    for u, v in g["di"]:
+        pa.setdefault(v, set()).add(u)
+    out = 0
+    for z in set(case["Z"]):
+        anc, todo = set(), list((set(case["Y"]) | set(case["Z"])) - {z})
+        while todo:
+            v = todo.pop()
+            if v in anc:
+                continue
+            anc.add(v)
+            todo.extend(pa.get(v, ()))
+        out += z not in anc
+    return out
 
 
 def run_python(case):
@@ -113,6 +151,10 @@ def run_python(case):
             "n_z": len(case["Z"]), "exchanges": len(exchanged), "rule2_refused": any(not ok for _, ok in r["rule2"]),
             "via": case.get("via", "idc")}
     tags.update(R.line_tags(r["lines"]))
+    if valid:
+        tags["nonancestor_conditions"] = _nonancestor_conditions(case)
+    if tags["kind"] == "structured":
+        tags["structured_kind"] = case["label"].split(":", 1)[1].replace("collider:", "").split("+")[0]
     fail = None
     if valid:
         if r["exc"] not in (None, "Unidentifiable"):
@@ -206,14 +248,17 @@ def finding_key(case, res):
 MANIFEST = {
     "text": ("Lean model of idc() (rule-2 test, exchange, final normalisation; separation test = the model of "
              "are_d_separated from Y0/Model/Sep.lean, F2-fixed) tied to the real code by differential correspondence. "
-             "Theorems: idc_total / idc_total_dsep (valid conditional query => the loop terminates with an estimand or "
-             "'unidentifiable', never another failure; in particular e / sum_Y e cannot divide by Zero: ID estimands are "
-             "zero-free), idc_sound_of_rule2 (the estimand equals P(y,z|do x)/P(z|do x) in every compatible SCM in which "
-             "rule 2 of the do-calculus holds for the separation test — an explicit hypothesis Rule2Sound, not an axiom), "
-             "idc_sound_no_exchange (unconditional when no condition is exchanged); both rest on C01's idAlg_sound. The "
-             "unconditional idc_sound is stated OPEN (rule 2 for SCMs is not mechanised). Every run evaluates each returned "
-             "estimand exactly on random compatible SCMs against P(y,z|do x)/P(z|do x) at every assignment."),
-    "note": ("Trusted: Lean kernel; axioms propext/Classical.choice/Quot.sound; SCM class and `den` (Y0/Spec); rule 2 of the "
-             "do-calculus enters idc_sound_of_rule2 as a named hypothesis; the model is tied to the code by sampling."),
+             "Theorems: idc_sound (C03 at full strength: whenever IDC returns an estimand on a valid conditional query over "
+             "a well-formed acyclic graph, its value equals P(y,z|do x)/P(z|do x) in EVERY compatible positive "
+             "semi-Markovian SCM at every assignment; idc_sound_acyclic with an executable topological sorter), "
+             "rule2_sound (rule 2 of the do-calculus for the model of are_d_separated and the SCM class, arbitrary lists "
+             "X, Y, Z: proved from the c-factor calculus plus C04's moralisation theorem lifted from pairs to a set of "
+             "targets — IdcRule2.lean, IdcSepSet.lean), idc_total / idc_total_dsep (valid conditional query => the loop "
+             "terminates with an estimand or 'unidentifiable', never another failure; e / sum_Y e cannot divide by Zero), "
+             "idc_order_irrelevant (the order in which the set of conditions is iterated does not change the value), "
+             "idc_sound_of_rule2 (any separation test satisfying rule 2). All rest on C01's idAlg_sound. Every run also "
+             "evaluates each returned estimand exactly on random compatible SCMs against P(y,z|do x)/P(z|do x)."),
+    "note": ("Trusted: Lean kernel; axioms propext/Classical.choice/Quot.sound; SCM class and `den` (Y0/Spec); "
+             "`topological_sort` as a parameter (TopoSound); the model is tied to the code by sampling."),
     "technique": "Lean 4 theorems about an executable model + differential correspondence + exact-rational SCM evaluation oracle",
 }
